@@ -127,6 +127,10 @@ package rotation
 //@   ensures[C13 tokens] forall j String :: unchangedToken(j)
 //@   call registration.AuthorizeNode assert[C10 authenticated] currentNodeInfo != nil && StHas("nodeinfo", currentNodeInfo.Id)
 //@   |   && loadedFrom(currentNodeInfo, StGet("nodeinfo", currentNodeInfo.Id)) && arg2 == fetchRequest
+//@   |   && (byNodeId ==> currentNodeInfo.NodeId == req.NodeId) && (!byNodeId ==> currentNodeInfo.Id == kcur)
+// a replayed (or otherwise already registered) new key is refused: credentials are fetched only after AuthorizeNode created the record now
+//@   call registration.FetchNodeCredentials assert[C10 replayrefused] reliable() ==>
+//@   |   !StHadAtEntry("nodeinfo", keyId(decField("types.FetchNodeCredentialsInfo", "CertificatePublicKeyPkix", fetchRequest.Bundle)))
 //@   call registration.AuthorizeNode assert[C10 state] opts(arg3).WithState == currentNodeInfo.State
 //@   call registration.FetchNodeCredentials assert[C10 samerequest] arg2 == fetchRequest
 //@   call nodeenrollment.EncryptMessage assert[C10 replykey] payload(arg2) == currentNodeInfo && currentNodeInfo != nil
